@@ -4,6 +4,7 @@ package main
 
 import (
 	"fmt"
+	"strings"
 	"time"
 
 	"github.com/tdakkota/docker-logql/internal/zzverif/mockq"
@@ -42,6 +43,9 @@ type c10Input struct {
 	// JSON (used instead of Sets when non-empty): indexes into c10JSONLines; the labels of the series come out of
 	// `| json`, i.e. as numbers, booleans and strings rather than as plain string attributes.
 	JSON []int `json:"json,omitempty"`
+	// Logfmt: the JSON indexes point into c10LogfmtLines and the stage is `| logfmt` (keys are used as label names as
+	// they are written: names that differ only in characters a sanitiser would map to one another stay distinct)
+	Logfmt bool `json:"logfmt,omitempty"`
 	// Turns: the range of the aggregation is Turns milliseconds instead of 10 s (records are 1 s apart, the range
 	// query has one step per second): with 500 the series take turns, one per step; from 1000 on windows overlap
 	// and expire partially.
@@ -52,6 +56,8 @@ type c10Input struct {
 var c10JSONLines = []string{
 	`{"code":200}`, `{"code":500}`, `{"code":"200"}`, `{"code":200,"ok":true}`, `{"code":200,"ok":false}`, `{"ok":true}`, `{"ok":"true"}`, `{"code":-1}`, `{"code":0}`, `{"code":""}`,
 }
+
+var c10LogfmtLines = []string{`a.b=1`, `a_b=1`, `a.b=1 a_b=2`, `a_b=1 a.b=2`, `a-b=1`, `a.b=2`, `a_b=`, `a.b=`}
 
 var c10Groupings = map[string]*refmodel.Grouping{
 	"":           nil,
@@ -80,10 +86,17 @@ func c10Build(in c10Input) ([]mockq.Rec, refmodel.Expr) {
 		}
 	}
 	for i, li := range in.JSON {
-		data = append(data, mockq.Rec{TS: (c09Base + int64(i)) * sec, Line: c10JSONLines[li]})
+		line := c10JSONLines[li%len(c10JSONLines)]
+		if in.Logfmt {
+			line = c10LogfmtLines[li]
+		}
+		data = append(data, mockq.Rec{TS: (c09Base + int64(i)) * sec, Line: line})
 	}
 	if len(in.JSON) > 0 {
 		js := []refmodel.Stage{&refmodel.JSONStage{}, &refmodel.Drop{Items: []refmodel.DKItem{{Label: "msg"}}}}
+		if in.Logfmt {
+			js[0] = &refmodel.LogfmtStage{}
+		}
 		var e refmodel.Expr
 		switch in.Shape {
 		case "count":
@@ -137,6 +150,21 @@ func c10Build(in c10Input) ([]mockq.Rec, refmodel.Expr) {
 		e = &refmodel.Bin{Op: "or", L: &refmodel.VecAgg{Op: "sum", X: &refmodel.RangeAgg{Op: "count_over_time", RangeNS: 10 * sec}}, R: &refmodel.Vec{V: 0}}
 	case "vector-unless-total":
 		e = &refmodel.Bin{Op: "unless", L: &refmodel.Vec{V: 1}, R: &refmodel.VecAgg{Op: "count", Grouping: &refmodel.Grouping{Labels: []string{}}, X: &refmodel.RangeAgg{Op: "count_over_time", RangeNS: 10 * sec}}}
+	case "sort-count", "topk-count":
+		// aggregations that pass series through unchanged: a label set still occurs once per step, at every step
+		op, k := "sort", (*int)(nil)
+		if in.Shape == "topk-count" {
+			nine := 9
+			op, k = "topk", &nine
+		}
+		e = &refmodel.VecAgg{Op: op, Param: k, X: &refmodel.RangeAgg{Op: "count_over_time", RangeNS: 10 * sec}}
+	case "by-after-without":
+		// an outer by() naming a label an inner without() removed: the label is gone, it does not come back
+		outer := g
+		if outer == nil {
+			outer = &refmodel.Grouping{Labels: []string{"a", "b", "c"}}
+		}
+		e = &refmodel.VecAgg{Op: "sum", Grouping: outer, X: &refmodel.VecAgg{Op: "sum", Grouping: &refmodel.Grouping{Without: true, Labels: []string{"c", "b"}}, X: &refmodel.RangeAgg{Op: "count_over_time", RangeNS: 10 * sec}}}
 	case "nested":
 		// a vector aggregation over a range aggregation that carries its own without clause
 		outer := g
@@ -270,6 +298,13 @@ func c10Colliding() [][2][]mockq.KV {
 		out = append(out, [2][]mockq.KV{{{K: "a", V: "x" + sep + "n" + sep + "y" + sep}}, {{K: "a", V: "x"}, {K: "n", V: "y"}}})
 		out = append(out, [2][]mockq.KV{{{K: "a", V: sep + "n" + sep}}, {{K: "a", V: ""}, {K: "n", V: ""}}})
 	}
+	// long label sets that differ only at their very end (a key computed over a bounded prefix merges them)
+	for _, n := range []int{100, 300, 600, 5000, 70000} {
+		long := strings.Repeat("L", n)
+		out = append(out, [2][]mockq.KV{{{K: "a", V: long + "1"}}, {{K: "a", V: long + "2"}}})
+		out = append(out, [2][]mockq.KV{{{K: "a", V: long}, {K: "z", V: "1"}}, {{K: "a", V: long}, {K: "z", V: "2"}}})
+		out = append(out, [2][]mockq.KV{{{K: "a", V: long}, {K: "z", V: "1"}}, {{K: "a", V: long}, {K: "zz", V: "1"}}})
+	}
 	for i := range sets {
 		for j := i + 1; j < len(sets); j++ {
 			a, b := sets[i], sets[j]
@@ -324,9 +359,9 @@ func c10Run(r *vkit.Run) {
 		if r.Stop() {
 			break
 		}
-		for _, shape := range []string{"count", "sum-count", "avg-unwrap", "nested", "total-or-vector", "vector-unless-total", "lit-left", "lit-right", "without-all-or-vector"} {
+		for _, shape := range []string{"count", "sum-count", "avg-unwrap", "nested", "total-or-vector", "vector-unless-total", "lit-left", "lit-right", "without-all-or-vector", "sort-count", "topk-count", "by-after-without"} {
 			for _, g := range c10GroupingNames {
-				if (shape == "count" || shape == "total-or-vector" || shape == "vector-unless-total" || shape == "without-all-or-vector") && g != "" {
+				if (shape == "count" || shape == "sort-count" || shape == "topk-count" || shape == "total-or-vector" || shape == "vector-unless-total" || shape == "without-all-or-vector") && g != "" {
 					continue // the grammar forbids grouping on count_over_time
 				}
 				for _, rg := range []bool{false, true} {
@@ -382,6 +417,15 @@ func c10Run(r *vkit.Run) {
 		}
 		for _, rg := range []bool{false, true} {
 			c10Check(r, c10Input{JSON: tu, Shape: "count", Range: rg, Bound: 1}, nil)
+			lf, ok := make([]int, len(tu)), true
+			for i, v := range tu {
+				lf[i] = v
+				ok = ok && v < len(c10LogfmtLines)
+			}
+			if ok {
+				c10Check(r, c10Input{JSON: lf, Logfmt: true, Shape: "count", Range: rg, Bound: 1}, nil)
+				c10Check(r, c10Input{JSON: lf, Logfmt: true, Shape: "sum-count", Grouping: "without(msg)", Range: rg, Bound: 1}, nil)
+			}
 			for _, g := range []string{"by(code)", "by(code,ok)", "by(ok)", "without(msg)", "without(msg,ok)"} {
 				c10Check(r, c10Input{JSON: tu, Shape: "sum-count", Grouping: g, Range: rg, Bound: 1}, nil)
 			}
@@ -406,9 +450,9 @@ func c10Run(r *vkit.Run) {
 				seq[length/2] = 2 // {a="b", c="d"}
 			}
 			for _, turns := range []int{500, 1000, 2000, 3000} {
-				for _, shape := range []string{"count", "sum-count", "lit-left"} {
+				for _, shape := range []string{"count", "sum-count", "lit-left", "sort-count", "topk-count", "by-after-without"} {
 					g := ""
-					if shape != "count" {
+					if shape == "sum-count" || shape == "lit-left" {
 						g = "by(a)"
 					}
 					c10Check(r, c10Input{Sets: seq, Shape: shape, Grouping: g, Range: true, Bound: 1, Turns: turns}, nil)
